@@ -84,7 +84,8 @@ where
         };
 
         enum Defaults<'n> {
-            Static(Vec<(Cow<'n, PropName>, Expr)>),
+            // (key, default as emitted for most props, the bare value for `Function` props)
+            Static(Vec<(Cow<'n, PropName>, Expr, Option<Expr>)>),
             Dynamic(&'n Expr),
         }
         let defaults = defaults.map(|defaults| {
@@ -106,6 +107,7 @@ where
                                         span: DUMMY_SP,
                                         ..Default::default()
                                     }),
+                                    Some(Expr::Ident(ident.clone())),
                                 )),
                                 Prop::KeyValue(KeyValueProp { key, value }) => {
                                     try_unwrap_lit_prop_name(key).map(|key| {
@@ -125,6 +127,7 @@ where
                                                     ..Default::default()
                                                 })
                                             },
+                                            (!value.is_lit()).then(|| (**value).clone()),
                                         )
                                     })
                                 }
@@ -133,19 +136,24 @@ where
                                     body: Some(body),
                                     ..
                                 }) => try_unwrap_lit_prop_name(key).map(|key| {
-                                    (
-                                        key,
-                                        Expr::Arrow(ArrowExpr {
-                                            params: vec![],
-                                            body: Box::new(BlockStmtOrExpr::BlockStmt(
-                                                body.clone(),
-                                            )),
-                                            is_async: false,
-                                            is_generator: false,
+                                    let getter = Expr::Arrow(ArrowExpr {
+                                        params: vec![],
+                                        body: Box::new(BlockStmtOrExpr::BlockStmt(body.clone())),
+                                        is_async: false,
+                                        is_generator: false,
+                                        span: DUMMY_SP,
+                                        ..Default::default()
+                                    });
+                                    let value = Expr::Call(CallExpr {
+                                        span: DUMMY_SP,
+                                        callee: Callee::Expr(Box::new(Expr::Paren(ParenExpr {
                                             span: DUMMY_SP,
-                                            ..Default::default()
-                                        }),
-                                    )
+                                            expr: Box::new(getter.clone()),
+                                        }))),
+                                        args: vec![],
+                                        ..Default::default()
+                                    });
+                                    (key, getter, Some(value))
                                 }),
                                 Prop::Method(MethodProp { key, function }) => {
                                     try_unwrap_lit_prop_name(key).map(|key| {
@@ -155,6 +163,7 @@ where
                                                 ident: None,
                                                 function: function.clone(),
                                             }),
+                                            None,
                                         )
                                     })
                                 }
@@ -212,7 +221,7 @@ where
     fn build_props_type(
         &self,
         TsTypeAnn { type_ann, .. }: &TsTypeAnn,
-        defaults: Option<Vec<(Cow<PropName>, Expr)>>,
+        defaults: Option<Vec<(Cow<PropName>, Expr, Option<Expr>)>>,
     ) -> ObjectLit {
         let mut props = Vec::with_capacity(3);
         self.resolve_type_elements(type_ann, &mut props);
@@ -335,6 +344,10 @@ where
                         }
                     }
                     let skip_check = skip_check && ir.types.iter().all(Option::is_some);
+                    // Vue calls a function-valued default as a factory unless the prop's
+                    // type is exactly `Function`
+                    let is_function_prop = ir.types.len() == 1
+                        && ir.types.first().and_then(Option::as_deref) == Some("Function");
                     let mut props = vec![
                         PropOrSpread::Prop(Box::new(Prop::KeyValue(KeyValueProp {
                             key: PropName::Ident(quote_ident!("type")),
@@ -381,7 +394,7 @@ where
                             }))),
                         }))));
                     }
-                    if let Some((_, default)) = defaults.iter().flatten().find(|(name, _)| {
+                    if let Some((_, default, value)) = defaults.iter().flatten().find(|(name, ..)| {
                         // `a`, `"a"` and `["a"]` (or `1` and `"1"`) spell the same key
                         name.eq_ignore_span(&prop_name)
                             || prop_name_text(name)
@@ -390,7 +403,10 @@ where
                     }) {
                         props.push(PropOrSpread::Prop(Box::new(Prop::KeyValue(KeyValueProp {
                             key: PropName::Ident(quote_ident!("default")),
-                            value: Box::new(default.clone()),
+                            value: Box::new(match value {
+                                Some(value) if is_function_prop => value.clone(),
+                                _ => default.clone(),
+                            }),
                         }))));
                     }
                     PropOrSpread::Prop(Box::new(Prop::KeyValue(KeyValueProp {
